@@ -262,6 +262,9 @@ type cexRecord struct {
 	Case    int
 	Cex     interp.Cex
 	Count   int
+	// for path-invariant (relational) obligations: the other witness of the pair and the key
+	Other   map[string]string
+	EmitKey string
 }
 
 func (c *cexRecord) signature() string {
@@ -283,6 +286,7 @@ type harnessResult struct {
 	truncated  bool
 	seconds    float64
 	emitDiffs  []string
+	emitFirst  map[string]*interp.PathRecord // case/key -> first path that emitted
 	cases      int
 	maxPathsIn int
 }
@@ -487,6 +491,39 @@ func (hr *harnessResult) absorb(spec *workerSpec, l *workerLine) {
 			} else {
 				rec.Count = 1
 				hr.cex[sig] = rec
+			}
+		}
+		for _, key := range hr.spec.Invariant {
+			val, ok := r.Emits[key]
+			if !ok {
+				continue
+			}
+			if hr.emitFirst == nil {
+				hr.emitFirst = map[string]*interp.PathRecord{}
+			}
+			ck := fmt.Sprintf("%d/%s", r.Case, key)
+			first := hr.emitFirst[ck]
+			if first == nil {
+				hr.emitFirst[ck] = r
+				continue
+			}
+			if first.Emits[key] != val {
+				rec := &cexRecord{Harness: hr.spec.Name, Case: r.Case, Other: first.Witness, EmitKey: key,
+					Cex: interp.Cex{Label: "path-invariant:" + key, Kind: "emit", Class: r.Class, Assignment: r.Witness,
+						Msg: fmt.Sprintf("%q on this path, %q on another path of the same case", val, first.Emits[key])}}
+				if rec.Cex.Assignment == nil {
+					rec.Cex.Assignment = map[string]string{}
+				}
+				if rec.Other == nil {
+					rec.Other = map[string]string{}
+				}
+				sig := rec.signature()
+				if old, ok := hr.cex[sig]; ok {
+					old.Count++
+				} else {
+					rec.Count = 1
+					hr.cex[sig] = rec
+				}
 			}
 		}
 		if (r.Witness != nil || r.Trace != nil || r.DecisionsV != nil) && len(l.Cex) == 0 && r.Outcome == "ok" {
@@ -798,10 +835,15 @@ func finish(p *propertySpec, tier string, seed int64, results []*harnessResult, 
 		Harness    string            `json:"harness"`
 		Case       int               `json:"case"`
 		Assignment map[string]string `json:"assignment"`
+		Isolate    bool              `json:"isolate,omitempty"` // run in a process of its own (package-level state)
 	}
 	var ws []witness
 	for i, c := range allCex {
 		ws = append(ws, witness{ID: fmt.Sprintf("cex%d", i), Harness: c.Harness, Case: c.Case, Assignment: c.Cex.Assignment})
+		if c.Cex.Kind == "emit" {
+			ws[len(ws)-1].Isolate = true
+			ws = append(ws, witness{ID: fmt.Sprintf("cex%db", i), Harness: c.Harness, Case: c.Case, Assignment: c.Other, Isolate: true})
+		}
 	}
 	for i, s := range samples {
 		ws = append(ws, witness{ID: fmt.Sprintf("ok%d", i), Harness: s.h.Name, Case: s.rec.Case, Assignment: s.rec.Witness})
@@ -821,17 +863,30 @@ func finish(p *propertySpec, tier string, seed int64, results []*harnessResult, 
 		}
 		nres := map[string]*nativeResult{}
 		for pkg, list := range byPkg {
-			wl := make([]interface{}, len(list))
+			var batches [][]interface{}
+			var shared []interface{}
 			for i := range list {
-				wl[i] = list[i]
+				if list[i].Isolate {
+					batches = append(batches, []interface{}{list[i]})
+				} else {
+					shared = append(shared, list[i])
+				}
 			}
-			res, err := nativeReplay(p, pkg, wl, work)
-			if err != nil {
-				replayErr = err
+			if len(shared) > 0 {
+				batches = append([][]interface{}{shared}, batches...)
+			}
+			for _, wl := range batches {
+				res, err := nativeReplay(p, pkg, wl, work)
+				if err != nil {
+					replayErr = err
+					break
+				}
+				for k, v := range res {
+					nres[k] = v
+				}
+			}
+			if replayErr != nil {
 				break
-			}
-			for k, v := range res {
-				nres[k] = v
 			}
 		}
 		if replayErr == nil {
@@ -864,7 +919,12 @@ func finish(p *propertySpec, tier string, seed int64, results []*harnessResult, 
 						reproduced[i] = true
 					}
 				case "emit":
-					reproduced[i] = true
+					// a pair of witnesses: reproduced when the two native runs also emit different values
+					// (map-order or schedule dependent pairs are replayed several times by the harness itself)
+					rb := nres[fmt.Sprintf("cex%db", i)]
+					if rb != nil && r.Emits[c.EmitKey] != rb.Emits[c.EmitKey] {
+						reproduced[i] = true
+					}
 				}
 				if !reproduced[i] {
 					addInc("counterexample %s did not reproduce natively (engine or model wrong?) asserts=%v panic=%q", c.signature(), r.Asserts, firstLine(r.Panic))
